@@ -463,7 +463,7 @@ def synthetic(ctx, stats):
     from osaca.semantics import ArchSemantics, MachineModel
 
     quick = ctx.tier == "quick" and not ctx.broken
-    n_models = 6 if quick else 60
+    n_models = 14 if quick else 60
     per_model = 40 if quick else 90
     for isa in ("x86", "aarch64"):
         for mi in range(n_models):
